@@ -286,6 +286,22 @@ def c14_sites(repo_root, tier):
                     ok = r is not None and r[0] == "func" and r[2].name == "CachingLoaderMixin"
                     _ob(obs, f"{m.name}:{cname}.{meth}/site.from-mixin", ok,
                         f"{cname}.{meth} is CachingLoaderMixin.{meth}" if ok else f"{cname}.{meth} resolves to {r[2].name if r and r[0]=='func' else r}")
+    # the namespace part of a cache key is read from the render context: every template load made by a tag hands its context on
+    n_loads = 0
+    for m, qual, cls, fn, parent in _all_functions(repo):
+        if ".tags." not in m.name:
+            continue
+        for c in _calls(fn):
+            if isinstance(c.func, ast.Attribute) and c.func.attr in ("get_template", "get_template_async") and any(x is c for x in own_nodes(fn)):
+                n_loads += 1
+                recv = ast.unparse(c.func.value)
+                ctx = recv[:-len(".env")] if recv.endswith(".env") else None
+                kw = {k.arg: ast.unparse(k.value) for k in c.keywords}
+                ok = ctx is not None and kw.get("context") == ctx
+                _ob(obs, f"{m.name}:{qual}/site.load-passes-context@{_ordinal(fn, c)}", ok,
+                    f"{recv}.{c.func.attr}(.., context={ctx}): the loader sees the render context (cache namespace, matter, globals)" if ok
+                    else f"{ast.unparse(c)[:90]}: the template is loaded without the render context, so a namespaced cache keys it without its namespace")
+    _ob(obs, "liquid2/site.tag-template-loads.count", n_loads >= 12, f"{n_loads} template loads in tag code")
     return {"obligations": obs, "samples": [{"obligation": o["oid"], "backend": "site", "note": o["note"]} for o in obs[:2]],
             "trusted": ["OrderedDict model: move_to_end/popitem/__setitem__ on an ordered key sequence with unique keys"],
             "assumptions": ["histories are covered by the data-structure invariant (capacity, LRU order) and the per-call contracts, not enumerated",
@@ -748,6 +764,56 @@ def _safe_expr(e, fn, site, depth=0):
     return False, f"{type(e).__name__} not recognised as safe"
 
 
+def _rendered_text_sites(repo_root):
+    """Text the engine rendered into a buffer of its own (capture, block.super) and hands back as a *value* is the engine's own
+    output: with auto-escape on it is marked safe, or printing it would escape it a second time."""
+    repo = Repo(repo_root)
+    obs = []
+    n = 0
+    for m, qual, cls, fn, parent in _all_functions(repo):
+        bufs = {t.id for a in own_nodes(fn) if isinstance(a, ast.Assign) and isinstance(a.value, ast.Call) and isinstance(a.value.func, ast.Attribute)
+                and a.value.func.attr == "get_output_buffer" for t in a.targets if isinstance(t, ast.Name)}
+        if not bufs:
+            continue
+        parents = {id(ch): p for p in own_nodes(fn) for ch in ast.iter_child_nodes(p)}
+        safe_return = False
+        gets = [c for c in _calls(fn) if isinstance(c.func, ast.Attribute) and c.func.attr == "getvalue" and isinstance(c.func.value, ast.Name) and c.func.value.id in bufs
+                and any(x is c for x in own_nodes(fn))]
+        plain = []
+        for c in gets:
+            par = parents.get(id(c))
+            wrapped = isinstance(par, ast.Call) and ((isinstance(par.func, ast.Attribute) and par.func.attr == "markup") or (isinstance(par.func, ast.Name) and "Markup" in par.func.id))
+            if wrapped and isinstance(par.func, ast.Name):
+                # Markup(buf.getvalue()) must be what is returned when auto-escape is on
+                g = par
+                while id(g) in parents and not isinstance(g, ast.If):
+                    g = parents[id(g)]
+                if isinstance(g, ast.If) and "auto_escape" in ast.unparse(g.test) and not isinstance(g.test, ast.UnaryOp) and any(x is par for st in g.body for x in ast.walk(st)):
+                    safe_return = True
+                    continue
+                plain.append(c)
+            elif not wrapped:
+                plain.append(c)
+        n += len(gets)
+        ok = bool(gets) and (not plain or safe_return)
+        _ob(obs, f"{m.name}:{qual}/site.rendered-text-is-safe", ok,
+            f"{len(gets)} getvalue() of an own output buffer: passed through context.markup(..) / returned as Markup when auto-escape is on" if ok
+            else f"`{ast.unparse(plain[0]) if plain else 'getvalue()'}` of the node's own output buffer is handed back as a plain string even when auto-escape is on: printing it escapes the already rendered text again")
+    _ob(obs, "liquid2/site.rendered-text.count", n >= 4, f"{n} values read back from own output buffers")
+    return obs
+
+
+@register("C08")
+def c08_super_safe(repo_root, tier):
+    """`block.super` reproduces the parent's definition - also with auto-escape on, where the parent's rendered text must not be escaped again."""
+    return {"obligations": [o for o in _rendered_text_sites(repo_root) if "BlockDrop" in o["oid"] or ".count" in o["oid"]], "samples": [], "trusted": [], "functions": [], "assumptions": []}
+
+
+@register("C04")
+def c04_rendered_text(repo_root, tier):
+    return {"obligations": _rendered_text_sites(repo_root), "samples": [], "trusted": [], "functions": [], "assumptions": []}
+
+
 @register("C04")
 def c04_sites(repo_root, tier):
     repo = Repo(repo_root)
@@ -1010,6 +1076,33 @@ def _assigns(fn, name):
 
 
 @register("C18")
+def c18_marker_classes(repo_root, tier):
+    """The three whitespace-control markers are interchangeable as far as *recognition* goes: every character class of the lexer's
+    patterns that stands for `an optional marker` admits all of `-`, `+` and `~` (a tag that is recognised with one marker and not
+    with another changes more than whitespace when the marker is changed)."""
+    import re as _re
+    repo = Repo(repo_root)
+    obs = []
+    m = repo.module("liquid2.lexer")
+    n = 0
+    bad = []
+    for c in ast.walk(m.tree) if m else []:
+        if isinstance(c, ast.Constant) and isinstance(c.value, str):
+            for mt in _re.finditer(r"\[((?:\\.|[^\]\\])+)\]", c.value):
+                cls_ = mt.group(1)
+                chars = set(_re.sub(r"\\(.)", r"\1", cls_))
+                before, after = c.value[max(0, mt.start() - 24):mt.start()], c.value[mt.end():mt.end() + 12]
+                at_delim = any(d in before for d in ("{%", "{{", "#+)")) or any(d in after for d in ("%\\}", "\\}\\}", "(?P=HASHES)"))
+                if chars and chars <= {"-", "+", "~"} and ("~" in chars or at_delim):
+                    n += 1
+                    if chars != {"-", "+", "~"}:
+                        bad.append(f"line {c.lineno}: [{cls_}] in {c.value[:40]!r}")
+    _ob(obs, "liquid2.lexer/site.marker-classes-complete", not bad and n >= 15,
+        f"{n} marker character classes, each admits - + and ~" if not bad and n >= 15 else f"marker class without all three markers: {bad[:2] or n}")
+    return {"obligations": obs, "samples": [], "trusted": [], "functions": [], "assumptions": []}
+
+
+@register("C18")
 def c18_sites(repo_root, tier):
     repo = Repo(repo_root)
     obs = []
@@ -1186,6 +1279,57 @@ def _tag_registrations(repo):
                     if isinstance(key, ast.Constant) and isinstance(n.value, ast.Call) and isinstance(n.value.func, ast.Name):
                         regs.append((key.value, n.value.func.id, m))
     return regs
+
+
+@register("C12")
+def c12_wc_pairs(repo_root, tier):
+    """A tag is printed with its own whitespace-control markers: inside one `{%..%}` / `{{..}}` of a __str__ the left marker
+    (<tok>.wc[0]) and the right marker (<tok>.wc[1]) are read from the same token."""
+    import re as _re
+    repo = Repo(repo_root)
+    obs = []
+    n_pairs = 0
+    for m, qual, cls, fn, parent in _all_functions(repo):
+        if fn.name != "__str__" or cls is None:
+            continue
+        alias = {}
+        for a in own_nodes(fn):
+            if isinstance(a, ast.Assign) and len(a.targets) == 1 and isinstance(a.targets[0], ast.Name):
+                alias[a.targets[0].id] = None if a.targets[0].id in alias else a.value   # a name bound twice is not an alias
+
+        def src(e):
+            e2 = e
+            if isinstance(e, ast.Subscript) and isinstance(e.value, ast.Name) and alias.get(e.value.id) is not None:
+                return f"{ast.unparse(alias[e.value.id])}[{ast.unparse(e.slice)}]"
+            return ast.unparse(e2)
+
+        joined = sorted([j for j in own_nodes(fn) if isinstance(j, ast.JoinedStr)], key=lambda j: (j.lineno, j.col_offset))
+        if not joined:
+            continue
+        open_ = None
+        bad = []
+        pairs = 0
+        for j in joined:
+            for v in j.values:
+                if not isinstance(v, ast.FormattedValue):
+                    continue
+                t = src(v.value)
+                m0 = _re.fullmatch(r"(.+)\.wc\[0\]", t)
+                m1 = _re.fullmatch(r"(.+)\.wc\[1\]", t)
+                if m0:
+                    open_ = m0.group(1)
+                elif m1:
+                    pairs += 1
+                    if open_ is not None and open_ != m1.group(1):
+                        bad.append(f"line {v.value.lineno}: left marker of `{open_}`, right marker of `{m1.group(1)}`")
+                    open_ = None
+        if pairs:
+            n_pairs += pairs
+            _ob(obs, f"{m.name}:{qual}/site.wc-markers-of-one-token", not bad,
+                f"{pairs} printed tags: both markers of each come from one token" if not bad
+                else f"a tag is printed with markers of two different tokens ({bad[0]}): the reparsed template trims differently")
+    _ob(obs, "liquid2/site.wc-pairs.count", n_pairs >= 40, f"{n_pairs} printed marker pairs")
+    return {"obligations": obs, "samples": [], "trusted": [], "functions": [], "assumptions": []}
 
 
 @register("C12")
@@ -1795,6 +1939,24 @@ def c06_sites(repo_root, tier):
                 _ob(obs, f"{m.name}:{c.name}.{fn.name}/site.data-loop-accounted.{li}", ok,
                     f"`for {ast.unparse(loop.target) if not isinstance(loop, ast.While) else '...'} in {it}` renders per item inside `with ctx.loop(..)`/`loop_iterations(..)`" if ok
                     else f"`for .. in {it}` at line {loop.lineno} renders a block or partial per item but is not registered with the loop limit: loops nested in it are checked on their own")
+    # a context copied for a macro body, a rendered partial or an overriding block keeps the iteration count of the loops around
+    # the copy: carry_loop_iterations is the literal True at every copy() made by tag code (contract of copy: the carry is the
+    # product of the active loop lengths and the carry already held - it is 1 without the flag, whatever loops are running)
+    n_copies = 0
+    for m, qual, cls, fn, parent in _all_functions(repo):
+        if ".tags." not in m.name:
+            continue
+        for c in _calls(fn):
+            if isinstance(c.func, ast.Attribute) and c.func.attr == "copy" and any(x is c for x in own_nodes(fn)) \
+                    and {k.arg for k in c.keywords} & {"namespace", "token", "disabled_tags", "block_scope", "template", "carry_loop_iterations"}:
+                n_copies += 1
+                kw = {k.arg: k.value for k in c.keywords}
+                v = kw.get("carry_loop_iterations")
+                ok = isinstance(v, ast.Constant) and v.value is True
+                _ob(obs, f"{m.name}:{qual}/site.copy-carries-iterations@{_ordinal(fn, c)}", ok,
+                    f"{ast.unparse(c.func)}(.., carry_loop_iterations=True)" if ok
+                    else f"{ast.unparse(c.func)}(..) with carry_loop_iterations={ast.unparse(v) if v is not None else 'absent (False)'}: loops in the copied context are counted without the loops (or the carry) around the copy")
+    _ob(obs, "liquid2/site.context-copies.count", n_copies >= 6, f"{n_copies} context copies in tag code")
     _ob(obs, "liquid2/site.data-loops.count", n_loops >= 8, f"{n_loops} per-item rendering loops found in node render methods")
     return {"obligations": obs, "samples": [], "trusted": [], "functions": [], "assumptions": ["macros called in a loop inherit the iteration carry through context.copy(carry_loop_iterations=True) (contract of copy)"]}
 
@@ -1838,6 +2000,27 @@ def c10_scope_sites(repo_root, tier):
     return {"obligations": obs, "samples": [], "trusted": [], "functions": [], "assumptions": []}
 
 
+@register("C10")
+def c10_twin(repo_root, tier):
+    """Names are bound, shadowed and released by the tags' render methods; the precedence they establish is the same on the async
+    path because each render_to_output_async is the await-erasure of its sync twin (the C03 obligations for those pairs)."""
+    from .twin import run_twin
+    tw = run_twin(repo_root, tier)
+    obs = [o for o in tw["obligations"] if o["oid"].endswith("/twin") and (".render_to_output/" in o["oid"] or ".get/" in o["oid"] or ".resolve/" in o["oid"] or ".map/" in o["oid"])]
+    return {"obligations": obs, "samples": [], "trusted": [], "functions": [], "assumptions": []}
+
+
+@register("C14")
+def c14_twin(repo_root, tier):
+    """Cache keys and freshness are computed by the same code on both paths: every loader method and every tag that loads a
+    template has an async twin that is the await-erasure of the sync one (the C03 obligations for those pairs)."""
+    from .twin import run_twin
+    tw = run_twin(repo_root, tier)
+    obs = [o for o in tw["obligations"] if o["oid"].endswith("/twin") and (".loaders." in o["oid"] or "liquid2.loader:" in o["oid"] or "_build_block_stacks" in o["oid"]
+                                                                         or "get_template" in o["oid"] or ".tags.include_tag" in o["oid"] or ".tags.render_tag" in o["oid"] or ".tags.extends_tag" in o["oid"])]
+    return {"obligations": obs, "samples": [], "trusted": [], "functions": [], "assumptions": []}
+
+
 @register("C01")
 def c01_twin(repo_root, tier):
     """Rendering semantics hold on the async path because every node's render_to_output_async and every expression's
@@ -1857,38 +2040,113 @@ def c16_optional_lookups(repo_root, tier):
     repo = Repo(repo_root)
     obs = []
     n_sites = 0
+    def _is_opt_resolve(c):
+        return (isinstance(c, ast.Call) and isinstance(c.func, ast.Attribute) and c.func.attr == "resolve" and ast.unparse(c.func.value) in ("context", "ctx")
+                and len(c.args) == 1 and not c.keywords)
+
+    def _type_test(e, var):
+        """+1: e is true only if var is known to be defined (isinstance / not is_undefined); -1: e is false only if so; 0: neither."""
+        neg = False
+        while isinstance(e, ast.UnaryOp) and isinstance(e.op, ast.Not):
+            e, neg = e.operand, not neg
+        if isinstance(e, ast.Call) and isinstance(e.func, ast.Name) and e.args and isinstance(e.args[0], ast.Name) and e.args[0].id == var:
+            if e.func.id == "isinstance" and "Undefined" not in ast.unparse(e.args[1] if len(e.args) > 1 else e):
+                return -1 if neg else 1
+            if e.func.id == "is_undefined":
+                return 1 if neg else -1
+        return 0
+
     for m, qual, cls, fn, parent in _all_functions(repo):
         opt = {}
         for n in own_nodes(fn):
-            if isinstance(n, ast.Assign) and len(n.targets) == 1 and isinstance(n.targets[0], ast.Name) and isinstance(n.value, ast.Call) \
-                    and isinstance(n.value.func, ast.Attribute) and n.value.func.attr == "resolve" and ast.unparse(n.value.func.value) in ("context", "ctx") \
-                    and len(n.value.args) == 1 and not n.value.keywords:
+            if isinstance(n, ast.Assign) and len(n.targets) == 1 and isinstance(n.targets[0], ast.Name) and any(_is_opt_resolve(c) for c in ast.walk(n.value)):
                 opt[n.targets[0].id] = n.lineno
+        parents = {}
+        for n in own_nodes(fn):
+            for ch in ast.iter_child_nodes(n):
+                parents[id(ch)] = n
         for var, line in opt.items():
             n_sites += 1
             bad = []
             for n in own_nodes(fn):
-                tests = []
-                if isinstance(n, (ast.If, ast.While, ast.IfExp)):
-                    tests.append(n.test)
+                uses = []   # (node, what)
+                if isinstance(n, (ast.If, ast.While, ast.IfExp)) and isinstance(n.test, ast.Name):
+                    uses.append((n.test, "truth test"))
                 elif isinstance(n, ast.BoolOp):
-                    tests.extend(n.values)
-                elif isinstance(n, ast.UnaryOp) and isinstance(n.op, ast.Not):
-                    tests.append(n.operand)
-                for t in tests:
-                    if isinstance(t, ast.Name) and t.id == var and getattr(t, "lineno", 0) >= line:
-                        # a bare truth test of the possibly-undefined value: allowed only after an is_undefined()/isinstance() test of it
-                        guarded = False
-                        for g in own_nodes(fn):
-                            if isinstance(g, ast.If) and g.lineno <= t.lineno and any(
-                                    isinstance(c, ast.Call) and isinstance(c.func, ast.Name) and c.func.id in ("is_undefined", "isinstance") and c.args and isinstance(c.args[0], ast.Name) and c.args[0].id == var
-                                    for c in ast.walk(g.test)) and g.test is not t and not any(x is t for x in ast.walk(g.test)):
+                    uses.extend((v, "truth test") for v in n.values if isinstance(v, ast.Name))
+                elif isinstance(n, ast.UnaryOp) and isinstance(n.op, ast.Not) and isinstance(n.operand, ast.Name):
+                    uses.append((n.operand, "truth test"))
+                elif isinstance(n, ast.Compare):
+                    for opnd, op in zip([n.left] + list(n.comparators), [None] + list(n.ops)):
+                        if isinstance(opnd, ast.Name) and not all(isinstance(o, (ast.Is, ast.IsNot)) for o in n.ops):
+                            uses.append((opnd, "comparison"))
+                for t, what in uses:
+                    if not (t.id == var and getattr(t, "lineno", 0) >= line):
+                        continue
+                    guarded = False
+                    # (a) an earlier `if` that tested is_undefined(var) settles definedness on both branches; an isinstance(var, T)
+                    #     test says something only where it succeeded (in the body of that `if`)
+                    for g in own_nodes(fn):
+                        if not (isinstance(g, ast.If) and g.lineno <= t.lineno and g.test is not t and not any(x is t for x in ast.walk(g.test))):
+                            continue
+                        tests = [g.test] + (list(g.test.values) if isinstance(g.test, ast.BoolOp) else [])
+                        if any(isinstance(c, ast.Call) and isinstance(c.func, ast.Name) and c.func.id == "is_undefined" and c.args and isinstance(c.args[0], ast.Name) and c.args[0].id == var
+                               for c in ast.walk(g.test)):
+                            guarded = True
+                        elif any(_type_test(e, var) == 1 for e in tests) and not (isinstance(g.test, ast.BoolOp) and isinstance(g.test.op, ast.Or)) \
+                                and any(x is t for st in g.body for x in ast.walk(st)):
+                            guarded = True
+                    # (b) short circuit inside one boolean expression: `isinstance(v, T) and <use>` / `not isinstance(v, T) or <use>`
+                    cur = t
+                    while id(cur) in parents and not guarded:
+                        par = parents[id(cur)]
+                        if isinstance(par, ast.BoolOp):
+                            idx = [i for i, v in enumerate(par.values) if v is cur or any(x is cur for x in ast.walk(v))]
+                            before = par.values[:idx[0]] if idx else []
+                            if isinstance(par.op, ast.And) and any(_type_test(e, var) == 1 for e in before):
                                 guarded = True
-                        if not guarded:
-                            bad.append(f"line {t.lineno}: truth test of `{var}`")
+                            if isinstance(par.op, ast.Or) and any(_type_test(e, var) == -1 for e in before):
+                                guarded = True
+                        if isinstance(par, ast.stmt):
+                            break
+                        cur = par
+                    if not guarded:
+                        bad.append(f"line {t.lineno}: {what} of `{var}`")
             _ob(obs, f"{m.name}:{qual}/site.optional-lookup-guarded.{var}", not bad,
-                f"`{var}` = context.resolve(..) (optional variable) is examined through is_undefined()/isinstance() before any truth test" if not bad
-                else f"`{var}` may be undefined (optional context variable) and is truth-tested directly ({bad[0]}): under StrictUndefined that raises although the template never used the name")
+                f"`{var}` = context.resolve(..) (optional variable) is examined through is_undefined()/isinstance() before any truth test or comparison" if not bad
+                else f"`{var}` may be undefined (optional context variable) and is examined directly ({bad[0]}): under StrictUndefined that raises although the template never used the name")
+    # an Undefined is constructed for a *missing* name only - never because a value that exists happens to be nil / falsy.
+    # A local assigned from an evaluation (expr.evaluate(..), get_item(..), a lookup) is a data value; `if <data value> is None`
+    # (or a truth test of it) must not decide that an Undefined is made.
+    n_ctor = 0
+    for m, qual, cls, fn, parent in _all_functions(repo):
+        if m.name == "liquid2.undefined":
+            continue
+        ctor = [c for c in _calls(fn) if isinstance(c.func, ast.Attribute) and c.func.attr == "undefined" and any(x is c for x in own_nodes(fn))]
+        if not ctor:
+            continue
+        data = set()
+        for n in own_nodes(fn):
+            if isinstance(n, ast.Assign) and any(isinstance(c, ast.Call) and isinstance(c.func, ast.Attribute) and c.func.attr in ("evaluate", "evaluate_async", "get_item", "get_item_async")
+                                                 for c in ast.walk(n.value)):
+                data.update(t.id for t in n.targets if isinstance(t, ast.Name))
+        for c in ctor:
+            n_ctor += 1
+            bad = []
+            for g in own_nodes(fn):
+                if isinstance(g, (ast.If, ast.IfExp)) and any(x is c for st in (g.body if isinstance(g.body, list) else [g.body]) + (g.orelse if isinstance(g.orelse, list) else [g.orelse]) for x in ast.walk(st)):
+                    tops = [g.test] + [v for b in ast.walk(g.test) if isinstance(b, ast.BoolOp) for v in b.values] \
+                        + [u.operand for u in ast.walk(g.test) if isinstance(u, ast.UnaryOp) and isinstance(u.op, ast.Not)]
+                    for x in ast.walk(g.test):
+                        nil_cmp = isinstance(x, ast.Compare) and any(isinstance(o, ast.Name) and o.id in data for o in [x.left] + x.comparators) \
+                            and any(isinstance(o, ast.Constant) and o.value is None for o in [x.left] + x.comparators)
+                        truth = isinstance(x, ast.Name) and x.id in data and any(x is t for t in tops)
+                        if nil_cmp or truth:
+                            bad.append(f"`{ast.unparse(g.test)}` (line {g.lineno}) tests the evaluated value for nil / falsiness")
+            _ob(obs, f"{m.name}:{qual}/site.undefined-only-for-missing@{_ordinal(fn, c)}", not bad,
+                "the Undefined is made where a name / argument is missing, not depending on an evaluated value" if not bad
+                else f"an Undefined is constructed depending on {bad[0]}: a variable that exists with value nil would fail a strict render")
+    _ob(obs, "liquid2/site.undefined-constructors.count", n_ctor >= 12, f"{n_ctor} Undefined construction sites outside liquid2.undefined")
     _ob(obs, "liquid2/site.optional-lookups.count", n_sites >= 4, f"{n_sites} optional context lookups found")
     # strict failures are the same on both paths: twin obligations of every evaluate / render pair
     from .twin import run_twin
